@@ -65,6 +65,7 @@ impl Case {
 
 struct World {
     socks: String,
+    v6_port: u16,
     target_port: u16,
     refused_port: u16,
     accepts: Arc<Mutex<Vec<(SocketAddr, tokio::time::Instant)>>>,
@@ -83,7 +84,16 @@ async fn build_world() -> Option<World> {
             netkit::spawn_echo(a.stream);
         }
     });
-    Some(World { socks, target_port, refused_port: netkit::free_port(), accepts, _keep: vec![sh, h1, drain] })
+    let mut t6 = Target::bind_v6_loopback(0).await?;
+    let v6_port = t6.port;
+    let acc6 = accepts.clone();
+    let drain6 = tokio::spawn(async move {
+        while let Some(a) = t6.rx.recv().await {
+            acc6.lock().unwrap().push((a.dialled, a.at));
+            netkit::spawn_echo(a.stream);
+        }
+    });
+    Some(World { socks, v6_port, target_port, refused_port: netkit::free_port(), accepts, _keep: vec![sh, h1, drain, drain6] })
 }
 
 #[derive(Debug, Clone, Default)]
@@ -172,7 +182,7 @@ fn dest_bytes(ip: Ipv4Addr, port: u16) -> Vec<u8> {
     v
 }
 
-pub fn gen_cases(rng: &mut Rng, w_target: u16, w_refused: u16, quick: bool) -> Vec<Case> {
+pub fn gen_cases(rng: &mut Rng, w_target: u16, w_refused: u16, w_v6: u16, quick: bool) -> Vec<Case> {
     let mut v: Vec<Case> = Vec::new();
     let mut uniq = 0u32;
     let mut next_ip = |accept: bool| {
@@ -259,6 +269,21 @@ pub fn gen_cases(rng: &mut Rng, w_target: u16, w_refused: u16, quick: bool) -> V
         d.extend_from_slice(&w_target.to_be_bytes());
         v.push(Case { greeting: ok_greeting.clone(), request: mk_req(1, 5, 0, d), frag: 0, cut: 0, label: "domain_invalid_utf8", dest: None, dest_accepts: true });
     }
+    // IPv6 requests: ::1 (accepting on its own port), a global address (unreachable), IPv4-mapped loopback
+    // addresses (the request names an IPv6 address: that address, in that family, is what must be dialled)
+    for k in 0..if quick { 6 } else { 40 } {
+        let (ip4, p) = next_ip(true);
+        let addrs: Vec<(std::net::Ipv6Addr, u16, bool)> = vec![
+            (std::net::Ipv6Addr::LOCALHOST, w_v6, true),
+            (ip4.to_ipv6_mapped(), p, true),
+            (std::net::Ipv6Addr::new(0x2001, 0xdb8, k as u16, 1, 2, 3, 4, 5), 443, false),
+        ];
+        let (ip6, port, acc) = addrs[k % 3];
+        let mut d = vec![4u8];
+        d.extend_from_slice(&ip6.octets());
+        d.extend_from_slice(&port.to_be_bytes());
+        v.push(Case { greeting: ok_greeting.clone(), request: mk_req(1, 5, 0, d), frag: (k % 3) as u8, cut: 0, label: "ipv6_request", dest: Some(SocketAddr::new(ip6.into(), port)), dest_accepts: acc });
+    }
     // ports and refusing targets
     for port in [0u16, 1, 255, 256, 32767, 32768, 65535] {
         let (ip, _) = next_ip(false);
@@ -292,7 +317,8 @@ fn judge(rep: &mut Report, c: &Case, seen: &Seen, events: &[Event], accepts: &[(
     rep.add(&format!("model_{:?}", m).to_lowercase(), 1);
     let case = c.describe();
     let dialled = c.dest.is_some_and(|d| events.iter().any(|e| matches!(e, Event::Dial { addr, .. } if *addr == d)));
-    let accepted = c.dest.is_some_and(|d| accepts.iter().any(|(a, _)| *a == d));
+    let canon = |a: &SocketAddr| SocketAddr::new(a.ip().to_canonical(), a.port());
+    let accepted = c.dest.is_some_and(|d| accepts.iter().any(|(a, _)| canon(a) == canon(&d)));
     let said_noauth = seen.method_reply == [5, 0];
     let said_success = seen.reply.len() == 10 && seen.reply[1] == 0;
     let cause = c.label;
@@ -368,7 +394,7 @@ pub fn run(ctx: Ctx) -> Report {
         };
         let w = Arc::new(w);
         let mut rng = Rng::new(seed ^ 0xC16);
-        let mut cases = gen_cases(&mut rng, w.target_port, w.refused_port, quick);
+        let mut cases = gen_cases(&mut rng, w.target_port, w.refused_port, w.v6_port, quick);
         rng.shuffle(&mut cases);
         let results = Arc::new(Mutex::new(Vec::new()));
         {
@@ -419,7 +445,7 @@ pub fn run(ctx: Ctx) -> Report {
 pub fn meta() -> CheckMeta {
     CheckMeta {
         level: "exploration",
-        rule: "raw loopback connections to the real start_socks5_server (real Client + Server + echo targets on unique 127.88.a.b addresses, fake DNS): all greeting version bytes, method lists of length 0..255 with/without 0x00, all 256 command codes, request version bytes, all 256 address-type bytes, domain lengths 0..255 and invalid UTF-8 names, port boundaries, accepting and refusing targets; delivered part by part, in one segment, byte at a time, and (for a CONNECT and a BIND request) split at every position (quick: a stratified subset of the byte ranges). Oracle = 30-line reference model: `05 00` exactly when no-auth was offered; no Dial event / target accept / success reply for refused negotiations, non-CONNECT commands, bad versions, bad address types, empty or non-UTF-8 names; for CONNECT a Dial to exactly the requested address, reply 00 iff the target accepted (confirmed by accept log and an echo through the tunnel), a failure code for refusing targets. Closing without a reply counts as refusing. distinct_nontrivial = distinct (byte strings, fragmentation).".into(),
+        rule: "raw loopback connections to the real start_socks5_server (real Client + Server + echo targets on unique 127.88.a.b addresses, fake DNS): all greeting version bytes, method lists of length 0..255 with/without 0x00, all 256 command codes, request version bytes, all 256 address-type bytes, domain lengths 0..255 and invalid UTF-8 names, IPv6 requests (::1, global, IPv4-mapped loopback: the Dial event must carry exactly that IPv6 address), port boundaries, accepting and refusing targets; delivered part by part, in one segment, byte at a time, and (for a CONNECT and a BIND request) split at every position (quick: a stratified subset of the byte ranges). Oracle = 30-line reference model: `05 00` exactly when no-auth was offered; no Dial event / target accept / success reply for refused negotiations, non-CONNECT commands, bad versions, bad address types, empty or non-UTF-8 names; for CONNECT a Dial to exactly the requested address, reply 00 iff the target accepted (confirmed by accept log and an echo through the tunnel), a failure code for refusing targets. Closing without a reply counts as refusing. distinct_nontrivial = distinct (byte strings, fragmentation).".into(),
         assumptions: vec!["all cases share one Client/Server pair and run 32 at a time, so every malformed connection has well-formed neighbours whose verdicts would show collateral damage".into()],
         floors: vec![("connections", 250), ("model_refusegreeting", 40), ("model_refuserequest", 40), ("connects_dialled_as_requested", 80), ("success_replies_confirmed_by_accept_and_echo", 40), ("failure_replies_for_refusing_targets", 10)],
         exhaustive: false,
